@@ -284,6 +284,7 @@ def run(P, R, L):
     R.clause("GRD-12", "a WAL / manifest is re-opened for appending only if the reader consumed it completely (no append after a torn tail)")
     K.grd12_reuse_only_complete_logs(P, R, L)
     K.grd12_cursor_counts_complete_reads(P, R, L)
+    K.grd12_fully_consumed_is_exact(P, R, L)
     R.not_decided += ["partial-write behaviour of the filesystem", "what recovery computes from a given on-disk image",
                       "batch atomicity at byte level (the reassembly clause is C12/TS-1)"]
     R.assumptions += ["FileSystem::rename is atomic; create_file(append=false) truncates",
